@@ -869,14 +869,24 @@ fn admin_check(b: &mut Built, op: &AdminOp, rng: &mut Rng, rep: &mut Report, ver
 	Ok(AdminOutcome { evals })
 }
 
+/// Column to reset / clear: in very wide databases mostly one whose two-digit id is a prefix of
+/// three-digit ids (10..=25 vs 100..=255).
+fn target(rng: &mut Rng, n: usize) -> usize {
+	if n > 100 && rng.chance(2, 3) {
+		rng.range(10, 25.min(n as u64 - 1)) as usize
+	} else {
+		rng.usize(n)
+	}
+}
+
 fn random_op(rng: &mut Rng, n: usize, pal: &[ColumnOptions]) -> AdminOp {
 	loop {
 		let op = match rng.below(5) {
 			0 => AdminOp::Add(rng.pick(pal).clone()),
 			1 if n > 0 => AdminOp::DropLast,
-			2 if n > 0 => AdminOp::Reset(rng.usize(n), None),
-			3 if n > 0 => AdminOp::Reset(rng.usize(n), Some(rng.pick(pal).clone())),
-			4 if n > 0 => AdminOp::Clear(rng.usize(n)),
+			2 if n > 0 => AdminOp::Reset(target(rng, n), None),
+			3 if n > 0 => AdminOp::Reset(target(rng, n), Some(rng.pick(pal).clone())),
+			4 if n > 0 => AdminOp::Clear(target(rng, n)),
 			_ => continue,
 		};
 		if matches!(op, AdminOp::Add(_)) && n >= 6 {
@@ -891,7 +901,9 @@ pub fn admin_case(ctx: &Ctx, rep: &mut Report, case_seed: u64) {
 	let mut rng = Rng::new(case_seed);
 	let pal = opts::palette();
 	// one case in eight administers a wide database (10-12 columns)
-	let n = if rng.chance(1, 8) { rng.range(10, 12) as usize } else { rng.range(1, 4) as usize };
+	// ... and one in twenty a very wide one (more than 100 columns: three-digit column ids in
+	// file names next to two-digit ones)
+	let n = if rng.chance(1, 20) { rng.range(101, 106) as usize } else if rng.chance(1, 8) { rng.range(10, 12) as usize } else { rng.range(1, 4) as usize };
 	let cols: Vec<ColumnOptions> = (0..n).map(|_| rng.pick(&pal).clone()).collect();
 	let logs = rng.chance(1, 2);
 	let big = rng.chance(1, 4);
@@ -1026,7 +1038,7 @@ pub fn spec() -> pv::Spec {
 		 counter mismatch_pairs), with one more / one fewer column, with two differing columns swapped and with several columns changed, through Db::open, \
 		 open_or_create and open_read_only: each attempt must return Err and leave the (name, length, content hash) of every \
 		 file unchanged (only the appearance of an empty lock file is ignored); plus opening missing paths and an empty \
-		 directory. (c) admin: seeded databases of 1-4 (one in eight: 10-12) columns drawn from 17 kinds (hash plain/preimage/rc/uniform/append-only, \
+		 directory. (c) admin: seeded databases of 1-4 (one in eight: 10-12, one in twenty: 101-106) columns drawn from 17 kinds (hash plain/preimage/rc/uniform/append-only, \
 		 btree, multitree; compression variants), filled by 3..10 (thorough ..30) transactions, cleanly closed or copied while \
 		 the last 1-3 commits were only in flushed logs (multitree columns additionally hold a node shared by two trees, so \
 		 that refcount_* files exist); a chain of 1-3 operations out of add_column / drop_last_column / reset_column(None|Some) \
